@@ -19,7 +19,7 @@ def sizesStr (s : State) : String :=
     | none => "-")
 
 /-- `ncoros` counting coroutines exist; handle ids beyond that are rejected by the harness -/
-def parseOp (ws : List String) (coroMode : Bool) (ncoros : Nat) : Option Op :=
+def parseOp (s : State) (ws : List String) (coroMode : Bool) (ncoros : Nat) : Option Op :=
   let n (x : String) := x.toNat?
   let hOk (h : Nat) : Option Nat := if h < ncoros then some h else none
   match ws with
@@ -64,6 +64,30 @@ def parseOp (ws : List String) (coroMode : Bool) (ncoros : Nat) : Option Op :=
   | ["conv", i] => (n i).map Op.conv
   | ["cconv", i] => (n i).map Op.cconv
   | ["ares", i] => (n i).map Op.ares
+  -- faults
+  | ["addhf", i, h] => do let i ← n i; let h ← (n h).bind hOk; pure (Op.fault (FOp.addF i h))
+  | ["mrgf", i, j, k] => do let i ← n i; let j ← n j; let k ← n k; pure (Op.fault (FOp.mergeF i j k))
+  | ["asgf", i, j, k] => do
+      let i ← n i; let j ← n j; let k ← n k
+      -- only for a suspend_point<void> target (the base assignment, which forwards to operator<<)
+      match s.obj i with
+      | some o => if o.typed then none else pure (Op.fault (FOp.mergeF i j k))
+      | none => pure (Op.fault (FOp.mergeF i j k))
+  | "call" :: j :: hs => do
+      let j ← if j == "-" then pure none else (n j).map some
+      let hs ← hs.mapM (fun h => (n h).bind hOk)
+      -- the queue is flushed while the driver coroutine runs: refused when its own handle waits there
+      if coroMode && (s.queue.contains driverId || (match j with | some jj => (handles s jj).contains driverId | none => false))
+      then none else pure (Op.fault (FOp.call hs j false))
+  | "callx" :: j :: hs => do
+      let j ← if j == "-" then pure none else (n j).map some
+      let hs ← hs.mapM (fun h => (n h).bind hOk)
+      if coroMode && (s.queue.contains driverId || (match j with | some jj => (handles s jj).contains driverId | none => false))
+      then none else pure (Op.fault (FOp.call hs j true))
+  | "cspx" :: hs => do
+      let hs ← hs.mapM (fun h => (n h).bind hOk)
+      pure (Op.fault (FOp.createX hs))
+  | ["act"] => pure (Op.fault FOp.isActive)
   | _ => none
 
 def line (head : String) (s : State) (n0 : Nat) : String :=
@@ -78,6 +102,8 @@ def doOp (s : State) (op : Op) : State × String :=
     | _ => "?"
   let head := match r, op with
     | Res.bad, _ => "bad"
+    | Res.threw, _ => "threw"
+    | Res.flag b, Op.fault _ => "act " ++ boolStr b
     | Res.handle none, _ => "pop noop"
     | Res.handle (some h), _ => s!"pop {h}"
     | Res.num k, Op.size _ => s!"size {k}"
@@ -106,7 +132,7 @@ partial def loop (lines : Array String) (i : Nat) (st : Option (State × Bool ×
         loop lines (i+1) none
     | [], _ => loop lines (i+1) st
     | _, some (s, cm, k) =>
-        match parseOp ws cm k with
+        match parseOp s ws cm k with
         | some op =>
             let (s', out) := doOp s op
             IO.println out
